@@ -537,6 +537,18 @@ impl<T: Eq + Hash> FrequentItemsSketch<T> {
             })?);
         }
 
+        // Every purge subtracts its median from at least one counter, so the counters and the
+        // offset of a sketch never add up to more than its stream weight; in particular no
+        // bound `count + offset` can overflow.
+        let accounted = values
+            .iter()
+            .try_fold(offset_val, |sum, value| sum.checked_add(*value));
+        if accounted.is_none_or(|sum| sum > stream_weight) {
+            return Err(Error::deserial(
+                "counts and offset exceed the stream weight",
+            ));
+        }
+
         let items = deserialize_items(cursor, active_items)?;
         if items.len() != active_items {
             return Err(Error::deserial(
